@@ -114,17 +114,17 @@ def load_hist(path, i):
     return None
 
 
-def signature(b, step):
+def signature(b):
     cls = b.get("cls")
     if cls == "stale-window":
-        return "C17 stale-window %s" % step.get("a")
+        return "C17 stale-window %s" % b.get("a")
     if cls == "dup-values":
         return "C17 dup-values eq"
     what = b.get("what", "")
     kind = what.split(" in ")[0].split("(")[0]
     # strip tree numbers / view names so that one structural cause gives one signature
     kind = " ".join(w for w in kind.split() if not w.isdigit())
-    return "C17 %s after %s [%s]" % (cls, step.get("a"), kind)
+    return "C17 %s after %s [%s]" % (cls, b.get("a"), kind)
 
 
 def judge(ctx, bads, defs_path, nval):
@@ -134,14 +134,14 @@ def judge(ctx, bads, defs_path, nval):
     for hp, b in bads:
         if b.get("r") != "mismatch":
             raise vlib.Inconclusive("harness inconclusive: %s" % b)
-        hist = load_hist(hp, b["i"])
-        step = hist[b["step"]] if 0 <= b.get("step", -1) < len(hist) else {}
-        sig = signature(b, step)
+        sig = signature(b)
         if sig in seen:
             continue
         seen.add(sig)
         if len(seen) > 12:
             break
+        hist = load_hist(hp, b["i"])
+        step = hist[b["step"]] if 0 <= b.get("step", -1) < len(hist) else {}
         one = ctx.path("one.ndjson")
         with open(one, "w") as f:
             f.write(json.dumps(hist) + "\n")
@@ -149,6 +149,7 @@ def judge(ctx, bads, defs_path, nval):
         if not bad2:
             raise vlib.Inconclusive("mismatch did not reproduce: %s" % b)
         b2 = bad2[0]
+        sig = signature(b2)
         cls = b2.get("cls")
         if cls in DRIFT_CLS or cls not in PROPERTY_CLS:
             drift.append(b2)
@@ -222,7 +223,7 @@ def run(ctx):
         plans.append(("nest_set", dict(nkey=3, nval=2, ntx=2, depth=8, nest="set", maxdirect=2, maxtxops=2), 25, 10))
     else:
         plans.append(("main", dict(nkey=3, nval=2, ntx=2, depth=16, nest=None, maxdirect=3, maxtxops=3), 1500, 18))
-        plans.append(("wide", dict(nkey=4, nval=3, ntx=3, depth=20, nest=None, maxdirect=4, maxtxops=3), 1000, 22))
+        plans.append(("wide", dict(nkey=4, nval=3, ntx=3, depth=20, nest=None, maxdirect=4, maxtxops=3), 700, 22))
         plans.append(("free", dict(nkey=3, nval=3, ntx=2, depth=12, nest=None, maxdirect=12, maxtxops=12), 500, 14))
         plans.append(("nest_tx", dict(nkey=3, nval=2, ntx=3, depth=10, nest="tx", maxdirect=1, maxtxops=2), 300, 12))
         plans.append(("nest_set", dict(nkey=3, nval=2, ntx=2, depth=9, nest="set", maxdirect=2, maxtxops=2), 150, 11))
